@@ -415,8 +415,8 @@ prop("C05",
 
 prop("C07",
      level="exploration",
-     parts=[{"engine": "login"}, {"engine": "login", "race": True, "max_cases_per_child": 12}],
-     floor={"quick": 120, "thorough": 6000},
+     parts=[{"engine": "login"}, {"engine": "login", "race": True, "max_cases_per_child": 40}],
+     floor={"quick": 400, "thorough": 12000},
      child_timeout={"quick": 600, "thorough": 7200},
      race_violation_scope=["hopserver/", "authgrants/", "authkeys/"],
      rule="The real HopServer over a real transport.Server on the simulated network, real time, thunks.TimeNow a settable clock, "
